@@ -157,13 +157,15 @@ class C18(Property):
                   "block permutation E/D, base64 codec as Section variables with explicit hypotheses): the JWT gate calls the "
                   "handler iff the token's signature is the HMAC under the current or previous secret with an HS method and "
                   "exp/nbf/iat hold now, whatever the hit-counter history and the reset setting, over every request sequence on "
-                  "one middleware and every call sequence on one TokenParser with per-call secrets; the error reported is 'none' "
+                  "one middleware and every call sequence on one TokenParser with per-call secrets, and independently of the "
+                  "request's HTTP method and other header fields (the whole request is the input); the error reported is 'none' "
                   "iff accepted; otherwise 401 and no context; every single-field mutation of a valid token is rejected unless it "
                   "is a mac collision. Strict content security calls the handler for DELETE/GET/POST/PUT only if the signature is "
                   "the MAC, under a key from a secret that decrypts under the private key that THE ROUTE GROUP'S OWN map gives for "
                   "the fingerprint, of exactly (timestamp within tolerance, method, path, query, body digest). Server level: for "
                   "every list of route groups with their own configurations, every request sequence: a handler runs only for "
-                  "credentials valid for the configuration of the group that registered the route; groups are isolated. PKCS#7 "
+                  "credentials valid for the configuration of the group that registered the route, with or without the CORS router "
+                  "(which answers OPTIONS itself); groups are isolated. PKCS#7 "
                   "pad/unpad and ECB round-trip for every payload, bodies with known or unknown length reach the handler "
                   "decrypted, the response is encrypted. prop_ok's executable specifications are proved sound and complete "
                   "w.r.t. the theorem predicates (ProofsCheck.v). Tied to the Go code by differential execution through "
@@ -185,7 +187,11 @@ class C18(Property):
             "independent stdlib client; enumerated (every run): every encoding-level edit of the signature attribute (each of "
             "its 44 characters x alphabet neighbours in bit 1/2/4, padding, other alphabet, CR/LF/space/tab/NUL/garbage "
             "inserted, case, percent-encoding, deletion), of the secret and fingerprint attributes and of the three JWT "
-            "segments; hdr: one header "
+            "segments; matrix (every run): every HTTP method x a vocabulary of header fields / request targets some layer may "
+            "special-case (CORS pre-flight shapes, Upgrade, SSE, X-Forwarded-*, method overrides, conditional headers, "
+            "authorization look-alikes, probe paths, token-bearing queries) x token state, through the bare middleware, a "
+            "TokenParser, real rest.Server route binding for all 7 router methods with and without rest.WithCors, the bare "
+            "content-security and cryption handlers; size limit at its boundary for bodies of known and unknown length; hdr: one header "
             "string through httpx.ParseHeader. non-trivial = jwt/tp case with both an accepted and a rejected token that parses, "
             "cs case whose secret decrypts, crypt case whose body is valid base64, srv case with >= 2 protected groups and both "
             "an accepted and a rejected request; distinct = canonical JSON hash of the case")
